@@ -98,12 +98,12 @@ impl Executor for SeqScan {
                 .ok_or(RuntimeError::CursorUninitialized)?
                 .get_tree();
 
-            let maybe_row = tree
-                .get_row_at(next_pos, &self.output_schema, &snapshot)?
-                .filter(|r| {
-                    self.evaluate_predicate(r)
-                        .expect("Predicate evaluation failed")
-                });
+            // A predicate that fails to evaluate is an error of the statement, not a reason to
+            // take the worker thread down.
+            let maybe_row = match tree.get_row_at(next_pos, &self.output_schema, &snapshot)? {
+                Some(row) if self.evaluate_predicate(&row)? => Some(row),
+                _ => None,
+            };
 
             if maybe_row.is_none() {
                 continue;
